@@ -1,16 +1,53 @@
 import subprocess, sys, os
-from tools import vlib
+from tools import vlib, cli
 
 RULE = ("lua_version() on every built-in library, on all 64 subsets of the six known versions, random lists with unknown names, and "
         "base chains of generated libraries; the construct matrix (goto, label, //, bitwise ops, <const>, Luau types, compound assignment, "
         "interpolated strings, continue, LuaJIT literals, if-expressions, //=, plain 5.1) embedded in 6 contexts and parsed with the real "
-        "full_moon under each version set; non-trivial = more than one or an unknown version declared, or a dialect-gated construct")
+        "full_moon under each version set; the command-line tool over chains of 1-33 std files with the dialect declared only at the bottom; non-trivial = more than one or an unknown version declared, or a dialect-gated construct")
 
 
 def body(ctx):
     n = 150 if ctx.tier == "quick" else 2000
     outdir, meta = ctx.harness("c16", n)
     ctx.correspond(outdir, nontrivial_tag=lambda t: any(x in t for x in ("multi", "unknown-version", "accept", "builtin")) and "plain51" not in t)
+    cli_chains(ctx)
+
+
+def cli_chains(ctx):
+    """the command-line tool's resolver over chains of std *files* of growing length: the dialect is declared only at the
+    bottom of the chain (or, once, in the middle), every file above it adds one global; the construct of the declared
+    dialect must be accepted and a construct of an undeclared one rejected, however long the chain is"""
+    d = os.path.join(ctx.workdir, "chains")
+    os.makedirs(d, exist_ok=True)
+    with open(os.path.join(d, "accept53.lua"), "w") as fh:
+        fh.write("local x = 7 // 2\nlocal y = x & 3\nreturn x, y\n")
+    with open(os.path.join(d, "accept52.lua"), "w") as fh:
+        fh.write("do goto done end\n::done::\n")
+    with open(os.path.join(d, "reject_luau.lua"), "w") as fh:
+        fh.write("local n: number = 1\nreturn n\n")
+    for length in ((1, 2, 9, 12) if ctx.tier == "quick" else (1, 2, 3, 5, 8, 9, 10, 12, 17, 33)):
+        for bottom, good, bad in (("lua53", "accept53.lua", "reject_luau.lua"), ("lua52", "accept52.lua", "accept53.lua")):
+            for i in range(1, length + 1):
+                base = f"c{length}_{bottom}_{i + 1}" if i < length else bottom
+                with open(os.path.join(d, f"c{length}_{bottom}_{i}.yml"), "w") as fh:
+                    fh.write(f"---\nbase: {base}\nglobals:\n  layer_{i}:\n    any: true\n")
+            cfg = f"cfg_{length}_{bottom}.toml"
+            with open(os.path.join(d, cfg), "w") as fh:
+                fh.write(f'std = "c{length}_{bottom}_1"\n')
+            for fname, want_parse_error in ((good, False), (bad, True)):
+                rc, out, err = cli.run_selene(["--config", cfg, "--display-style", "json2", "--num-threads", "1", fname], d)
+                diags, summary, badl = cli.parse_json_lines(out)
+                got = any(x.get("code") == "parse_error" for x in diags)
+                ctx.evaluations += 1
+                ctx.nontrivial = getattr(ctx, "nontrivial", 0)
+                if "panicked" in err or summary is None:
+                    ctx.violation(f"implementation violates the specification: the command-line tool fails on a chain of {length} std files over {bottom}",
+                                  f"directory: {d}\nconfig: {cfg}\nfile: {fname}\nstderr (head): {err[:500]}")
+                elif got != want_parse_error:
+                    ctx.violation(f"implementation violates the specification: with a chain of {length} std files whose last one has base {bottom} (no file declares lua_versions itself), "
+                                  f"{fname} is {'rejected with a parse error' if got else 'accepted'}, but the effective library declares exactly the dialects of {bottom}",
+                                  f"directory: {d}\nconfig: {cfg} (std = c{length}_{bottom}_1 -> ... -> c{length}_{bottom}_{length} -> {bottom})\nfile: {fname}\nstdout (head): {out[:500]}")
 
 
 def check(ctx):
@@ -23,4 +60,4 @@ def check(ctx):
         ctx, ["Selene.Props.C16"], body,
         trusted=vlib.BASE_TRUST + ["tools/translate.py (regex extraction of base/lua_versions headers of default_std/*.yml, regenerated on every run)",
                                    "full_moon's parser and its LuaVersion bit table"],
-        rule=RULE)
+        rule=RULE, need_selene=True)
